@@ -270,7 +270,7 @@ let log_s (lg : (n * value list) list) : string =
 
 let rec nat_of_int (i : int) : nat = if i <= 0 then O else S (nat_of_int (i - 1))
 let rcause_s = function
-  | RC c -> cause_s c | RNotFound -> "notfound" | RNoValue -> "novalue" | RWriter -> "writer" | RFuel -> "fuel" | RSyntax -> "err"
+  | RC c -> cause_s c | RNotFound -> "notfound" | RNoValue -> "novalue" | RWriter -> "writer" | RFuel -> "toodeep" | RSyntax -> "err"
 let lerr_s = function LDup -> "dup" | LScan e -> "scan-" ^ serr_s e | LEval -> "eval"
 let render_fuel = nat_of_int 400
 
@@ -333,7 +333,7 @@ let run_case (line : string) =
                 | ROk -> add "OK "
                 | RErr c -> add ("ERR " ^ rcause_s c ^ " ")
                 | RUnmodelled -> add "UNM ");
-               p_str o; add (" LOG " ^ log_s lg)) results))
+               p_str o; add (" LOG " ^ (if r = RErr RFuel then "" else log_s lg))) results))
    | ["reload"; hot; first; ops] ->
      let hot = hot = "1" and healthy = ref (first = "1") and calls = ref 0 in
      let build () = incr calls; if !healthy then BOk (nat_of_int !calls) else BFail in
@@ -384,10 +384,36 @@ let run_case (line : string) =
          Printf.sprintf "(%s|%s|%s|%s)" (enc c) (enc i) (enc p) (String.concat "," (List.sort compare !refs))) !order in
        add ("OK header " ^ String.concat "" (List.sort compare lines))
      end
+   | ["fs"; sub; files] ->
+     let split_path (s : n list) : n list list =
+       (* split on '/' *)
+       let rec go cur acc = function
+         | [] -> List.rev (List.rev cur :: acc)
+         | c :: r -> if int_of_n c = 47 then go [] (List.rev cur :: acc) r else go (c :: cur) acc r in
+       if s = [] then [] else go [] [] s in
+     let files = List.map (fun f -> match String.split_on_char '~' f with
+         | [p; c; flt; mt] ->
+           { ff_path = split_path (str_of_field p); ff_content = str_of_field c;
+             ff_fault = (match flt with "1" -> Some FltOpen | "2" -> Some FltRead | _ -> None); ff_match = (mt = "1") }
+         | _ -> failwith "fsfile") (split '|' files) in
+     let dflt_tags = List.map str_of_ascii ["script"; "style"; "textarea"; "title"] in
+     let dflt_voids = List.map str_of_ascii ["!doctype"; "area"; "base"; "br"; "col"; "embed"; "hr"; "img"; "input"; "link"; "meta"; "source"; "track"; "wbr"] in
+     let methods _ _ = [] in
+     let ((tps, err), evs) = parse_fs is_space to_lower is_letter is_udigit methods call_fn dflt_tags dflt_voids
+         (str_of_ascii "t:") (str_of_ascii ":") (SData (VMap [])) (split_path (str_of_field sub)) files in
+     let enc s = if s = [] then "-" else String.concat "," (List.map (fun c -> string_of_int (int_of_n c)) s) in
+     (match err with
+      | None -> add ("OK " ^ String.concat " " (List.sort compare (List.map (fun (k, _) -> enc k) tps)))
+      | Some WFs -> add "ERR fs"
+      | Some (WLoad LDup) -> add "ERR dup"
+      | Some (WLoad _) -> add "ERR load");
+     add (" EV " ^ String.concat " " (List.map (function
+       | EvOpen p -> "open:" ^ enc p | EvOpenFail p -> "openfail:" ^ enc p | EvClose p -> "close:" ^ enc p) evs))
    | ["parse"; src] ->
      (match parse_code is_letter is_udigit (str_of_field src) with
       | Some e -> add "OK "; p_expr e
       | None -> add "ERR")
+   | "fuzz" :: _ -> Buffer.add_string b "UNMODELLED"
    | _ -> Buffer.add_string b "BADCASE");
   print_string (Buffer.contents b); print_newline ()
 
